@@ -156,6 +156,14 @@ def hash_iteration_sites():
                 k = (rel, fn, hit)
                 counts[k] = counts.get(k, 0) + 1
                 sites.append(f"{os.path.basename(rel)}:{fn}:{hit}#{counts[k]}")
+            # adaptors that *produce* a hash container which is then consumed in the same expression
+            # (itertools' into_group_map / counts return std HashMaps; from_iter into a hash container)
+            m2 = re.search(r"\b(into_group_map(?:_by)?|into_grouping_map(?:_by)?|counts(?:_by)?)\s*\(|\b(Hash(?:Map|Set))::from_iter\s*\(", line)
+            if m2:
+                nm = m2.group(1) or (m2.group(2) + "::from_iter")
+                k = (rel, fn, nm)
+                counts[k] = counts.get(k, 0) + 1
+                sites.append(f"{os.path.basename(rel)}:{fn}:{nm}#{counts[k]}")
     return sites
 
 
